@@ -5,11 +5,11 @@ CONSTANTS
   Shapes = {"v4", "v6", "zero", "empty"}
   MaxSteps = 5
   Births = TRUE
-  LoseMarker = TRUE
+  LoseMarker = FALSE
   EmptyUnmarked = FALSE
   SubLosesMarker = FALSE
 INIT Init
 NEXT Next
 VIEW View
-PROPERTIES NeverConsumes NeverCreates ADDiscipline
+INVARIANTS NeverSubPassed
 CHECK_DEADLOCK FALSE
